@@ -64,6 +64,14 @@ def setup(ctx):
     c.executemany('insert into t values (?, ?)', [(1, 'x'), (2, 'y'), (3, 'z')])
     c.commit()
     c.close()
+    from petl.io.sources import MemorySource
+    for kind in ('csv', 'pickle', 'text', 'json', 'jsonl'):
+        with open(_files[kind], 'rb') as f:
+            _files['mem:' + kind] = MemorySource(f.read())
+    big = [['f0', 'f1']] + [[i, 'value-%d' % i] for i in range(3)]
+    sink = MemorySource()
+    petl.topickle(big, sink)
+    _files['mem:pickle2'] = MemorySource(sink.getvalue())
 
 
 def _dictgen(n):
@@ -80,6 +88,12 @@ EXTRA = {
     'x:fromjson-lines': lambda s: petl.fromjson(_files['jsonl'], lines=True),
     'x:fromtext': lambda s: petl.fromtext(_files['text']),
     'x:fromdb': lambda s: petl.fromdb(_files['db'], 'select * from t'),
+    'x:fromcsv-memory': lambda s: petl.fromcsv(_files['mem:csv']),
+    'x:frompickle-memory': lambda s: petl.frompickle(_files['mem:pickle']),
+    'x:frompickle-memory2': lambda s: petl.frompickle(_files['mem:pickle2']),
+    'x:fromtext-memory': lambda s: petl.fromtext(_files['mem:text']),
+    'x:fromjson-memory': lambda s: petl.fromjson(_files['mem:json']),
+    'x:fromjson-lines-memory': lambda s: petl.fromjson(_files['mem:jsonl'], lines=True),
     'x:fromdicts-list': lambda s: petl.fromdicts(list(_dictgen(len(s) - 1))),
     'x:fromdicts-generator': lambda s: petl.fromdicts(_dictgen(len(s) - 1), header=['a', 'b']),
     'x:fromdicts-generator-sample2': lambda s: petl.fromdicts(_dictgen(len(s) - 1), sample=2),
